@@ -249,3 +249,8 @@ Proof.
         by (symmetry; apply valid_time_iff; cbn [cy cmo cd ch cmi cs cns]; change (month_len 1 1) with 31; lia).
       apply ctime_eqb_refl.
 Qed.
+
+(* the model's fn 1 output carries the purity observation the specification demands (enc_value is a function of an
+   immutable value: a second call gives the same outcome and leaves the value alone) *)
+Lemma roundtrip_model_pure i v : value_of_tree (t_nth 2 i) = Some v -> pure_ok (t_nth 2 (value_run 1 i)) = true.
+Proof. intros H. change (value_run 1 i) with (run_roundtrip i). unfold run_roundtrip. rewrite H. reflexivity. Qed.
